@@ -41,8 +41,11 @@ def check_one(ck, r, m, d, failures, lay=0, label=''):
     Bt = '((_ zero_extend 64) %s)' % concat_bytes_be(ub[:24])
     K192, K384 = pow(2, 192, N) * R % N, pow(2, 384, N) * R % N
     spec = '({fa} ({fa} ({to} {A}) ({fm} ({to} {B}) {k1})) ({fm} ({to} (_ bv0 256)) {k2}))'.format(fa=fa, fm=fm, to=mu.to, A=A, B=Bt, k1=bvconst256(K192), k2=bvconst256(K384))
-    ans = ck.prove_batch(low.all(), [(tag + '.value', 'result = To(a) + To(b)*2^192 + To(0)*2^384 over the windows of expand_message_xmd(msg, DST, 48)%s, i.e. OS2IP(uniform_bytes) mod n' % (
-        ' (oversize-DST rule)' if d > 255 else ''), '(assert (not %s))' % limbs_eq(o['S']['f'], spec))], timeout=90)
+    # equivalent term shapes (the vanishing third term dropped, summands / factors in either order) are the same reduction
+    ta, tb, k1 = '(%s %s)' % (mu.to, A), '(%s %s)' % (mu.to, Bt), bvconst256(K192)
+    shapes = [spec] + ['(%s %s %s)' % (fa, x_, y_) for pb in ('(%s %s %s)' % (fm, tb, k1), '(%s %s %s)' % (fm, k1, tb)) for x_, y_ in ((ta, pb), (pb, ta))]
+    ans = ck.prove_batch(low.all(), [(tag + '.value', 'result = To(a) + To(b)*2^192 [+ To(0)*2^384] over the windows of expand_message_xmd(msg, DST, 48)%s, i.e. OS2IP(uniform_bytes) mod n' % (
+        ' (oversize-DST rule)' if d > 255 else ''), '(assert (not (or %s)))' % ' '.join(limbs_eq(o['S']['f'], sp) for sp in shapes))], timeout=90)
     if ans[0] != 'unsat':
         failures.append(tag + '.value')
     ocone = set(r.cone(o['S']['f']))
